@@ -456,7 +456,15 @@ def h_submit(shapes=("chain3",), bss=(1, 2), maxns=(None, 1), tas=(True,), time_
                 if n in got:
                     ex.check(n in recorded, "C12: fabricated result for a job without a recorded row", job=n)
             miss = set(data["missing_jobs"])
-            ex.check(miss == set(nm) - set(got), "C12: missing list != configured jobs without a result", missing=sorted(miss))
+            ex.check(miss == set(nm) - set(got), "C12/C20: missing list != configured jobs without a result", missing=sorted(miss),
+                     results=sorted(got))
+            sm_ = data["results_summary"]
+            ex.check(sm_["num_missing"] == len(set(nm) - set(got))
+                     and sm_["num_successful"] == sum(1 for v in got.values() if v == "successful")
+                     and sm_["num_failed"] == sum(1 for v in got.values() if v == "failed")
+                     and sm_["num_canceled"] == sum(1 for v in got.values() if v == "canceled")
+                     and sm_["num_successful"] + sm_["num_failed"] + sm_["num_canceled"] + sm_["num_missing"] == N,
+                     "C12/C20: results summary does not count each job in exactly one of successful/failed/canceled/missing", summary=sm_)
             for n in nm:
                 if n in got and got[n] in ("successful", "failed"):
                     ex.check(n in ran_to_end and (rc_mem.get(n, 0) == 0) == (got[n] == "successful"),
